@@ -6,8 +6,7 @@
      NEW_TRANSACTION       schema := FindSchema(version) when version <> "" (an unknown version stops the import), else nil;
                            CommitTransaction as in Ledger/Import.v; UpsertAccounts with the chart defaults of THAT schema
                            (default_metadata || metadata for a row the statement inserts)
-     SET_METADATA account  schema as above; chart defaults non-empty => UpsertAccounts(dates = log date, defaults),
-                           otherwise UpdateAccountsMetadata as in Ledger/Import.v
+     SET_METADATA account  schema as above; UpsertAccounts(dates = log date, chart defaults of that schema)
      INSERTED_SCHEMA       InsertSchema(payload.Schema) (schemas_pkey violated when the version exists), then the log
      the others            as in Ledger/Import.v (the version is stored with the log, nothing is resolved)
    The hash column is not repeated here (Ledger/Import.v, generic over the rows); sequences are never advanced. *)
@@ -48,16 +47,10 @@ Section SImport.
     if String.eqb v "" then Some None
     else match find_schema (ss_schemas c) v with Some r => Some (Some r) | None => None end.
 
-  (* UpdateAccountsMetadata stores the metadata as jsonb (keys deduplicated, last wins: mmerge [] md, the normal form
-     SchemaCtrl.upsert_account_d stores for a new row) *)
+  (* SET_METADATA on an account: UpsertAccounts with the chart defaults of the schema of THIS log, dated at the log
+     (first usage, insertion date, updated_at = log date), as saveAccountMetadata does at the time of the write *)
   Definition simp_acc_set (hist_on : bool) (d : Z) (st : list account * list ahist) (a : addr) (dm md : meta) : list account * list ahist :=
-    match dm with
-    | [] => match find_account (fst st) a with
-            | Some _ => imp_acc_set hist_on d st a md
-            | None => imp_acc_set hist_on d st a (mmerge [] md)
-            end
-    | _ => upsert_account_d hist_on d st a dm md (Some d) (Some d) (Some d)
-    end.
+    upsert_account_d hist_on d st a dm md (Some d) (Some d) (Some d).
 
   Definition simp_payload (now : Z) (c : sstate) (d : Z) (v : str) (p : payload) : state + serr_imp :=
     let s := ss_base c in
